@@ -161,20 +161,21 @@ CHECKS = {
                      'objects.GzipPacked and objects.MsgCopy are excluded while their known findings are open (counted in excluded_by_known_finding)'],
     ),
     'C13': dict(
-        pkg='./c13', test='TestC13', level='translation_validation',
-        quick=dict(shards=1, checks=1),
-        thorough=dict(shards=1, checks=1),
-        exhaustive_all=True,
+        pkg='./c13', test='TestC13', level='translation_validation', helpers={'vdriver': './cmd/vdriver'},
+        quick=dict(shards=1, checks=1, extra=[dict(test='TestC13Methods', checks=1, shards=2)]),
+        thorough=dict(shards=1, checks=1, extra=[dict(test='TestC13Methods', checks=1, shards=10)]),
         level_text=('Part A (exhaustive differential): every definition of api_latest.tl (1195 + the 5 dormant header lines), the hand-written wrappers and the wire-used '
                     'definitions of mtproto.tl is compared with the registered Go type by an independent reading of the schema text: id written = CRC-32 of the '
                     'canonical line = CRC() of the type, field i <-> parameter i under a fixed type map, flag:N tags, encoded_in_bitflags, FlagIndex(), enum member sets, '
-                    'interface implementer sets, and nothing registered beyond the schemas. Part B (generated end-to-end calls of all client methods against the '
-                    'reference server) is described in DESIGN.md.'),
+                    'interface implementer sets, and nothing registered beyond the schemas. Part B: every generated client method (343) is called end to end on a client built by telegram.NewClient against the '
+                    'reference server: arguments are generated from the function\'s schema line and passed in schema parameter order, the request bytes must equal the '
+                    'schema serialisation of those arguments (bool arguments alternate so that a swap shows), the server answers with a generated value of the declared '
+                    'result type and the method must return exactly that value in the Go kind the schema implies.'),
         technique='exhaustive differential comparison of schema text vs registered Go types (translation validation); generated end-to-end method calls against a reference server',
         rule=('one case per schema definition in scope and one per registered constructor id; the whole finite set is enumerated on every run (no sampling). Non-trivial: the '
               'definition has at least one parameter / the id is registered; distinct by definition name.'),
         programs_class='programs',
-        must_hit=['kind:function', 'kind:constructor', 'kind:enum-member', 'dormant-definition', 'hand-written-wrapper', 'has-conditional-fields', 'file:mtproto.tl', 'registered-id'],
+        must_hit=['kind:function', 'kind:constructor', 'kind:enum-member', 'dormant-definition', 'hand-written-wrapper', 'has-conditional-fields', 'file:mtproto.tl', 'registered-id', 'method-call', 'result-kind:Bool', 'result-kind:vector', 'result-kind:object', 'args:positional'],
         assumptions=['the five commented-out header lines of api_121.tl ("these items exist in tl schema") count as definitions of the schema file; their ids are compared as written, the CRC-32 rule is not applied to them',
                      'msg_container and gzip_packed have hand-written (un)marshalers: only their ids are compared here, their wire behaviour in C02',
                      'invokeAfterMsg(s), invokeWithoutUpdates, invokeWithMessagesRange are documented as not implemented and are reported, not flagged'],
